@@ -479,7 +479,7 @@ Proof.
         destruct hs; cbn; [right; symmetry; exact Hpar|left; reflexivity]. }
     assert (HW : W c (on_chain hs ch) (g ++ [bs])).
     { apply (W_extend c (fun _ _ => True) (on_chain hs ch) (fun _ _ => True) (fun _ => True) (fun _ => True)
-                      (fun _ _ _ => I) (fun _ _ _ _ => I) (fun _ _ _ _ _ _ _ _ _ _ => I)
+                      (fun _ _ _ => I) (fun _ _ _ _ => I) (fun _ _ _ _ _ _ _ _ _ _ _ _ _ => I)
                       g ln (b_hash x) delta bs tn);
         try assumption; try lia.
       - split; assumption.
